@@ -26,7 +26,9 @@ from cedar import U
 
 PROP = "C14"
 PROP_FILE = "C14_TPE"
-THEOREMS = []
+THEOREMS = ['c14_views', 'c14_decision_reauthorize', 'c14_reauthorize_concrete', 'c14_decision_concrete',
+            'c14_query_exact', 'c14_query_brute', 'c14_query_action_label', 'c14_query_action_complete',
+            'c14_interp_sound_partial']
 
 MANIFEST = {
     "text": "Gallina model of the type-aware partial evaluator (tpe/evaluator.rs interpret arm by arm, residual.rs "
@@ -463,6 +465,10 @@ def oracle_tpe(rep, case, res, stats):
     def viol(kind, extra=None, key=None):
         nonlocal nv
         nv += 1
+        kk = kind.split(" is ")[0][:60]
+        stats["violation_kinds"][kk] = stats["violation_kinds"].get(kk, 0) + 1
+        if stats["violation_kinds"][kk] > 4:      # at most 4 replays per kind of failure
+            return
         payload = {"property": PROP, "kind": kind, "input": cmd, "observed": extra,
                    "replay": "./check C14 --replay <this file>"}
         rep.violation(payload, key=key)
@@ -662,7 +668,7 @@ def new_stats():
     return {"setup_error": {}, "decision": {}, "bucket": {}, "inconsistent_completions": 0, "consistent_completions": 0,
             "nonconformant_completions": 0, "reauth_reject": {}, "definite_checked": 0, "outcomes": {},
             "residual_outcomes": {}, "query_setup_error": {}, "query_candidates": 0, "query_allowed": 0,
-            "action_completions": 0, "model_compared": 0, "model_skipped": {}}
+            "action_completions": 0, "model_compared": 0, "model_skipped": {}, "violation_kinds": {}}
 
 
 def run(rep, tier, seed):
